@@ -44,7 +44,16 @@ def subsample_event(counts, n, seed):
     ev = dict(op="Subsample", counts=list(counts), n=n, raised=False, idx=[], cnt=[])
     np.random.seed(seed)
     try:
-        idx, cnt = prs.subsample(np.array(counts) if seed % 2 else list(counts), n)
+        # the count vector as list / array / tuple / pandas Series whose labels are not the positions 0..K-1 (a value_counts() result,
+        # a sorted or filtered Series): categories are positions in the vector
+        import pandas as pd
+        k = len(counts)
+        form = seed % 7
+        arg = [lambda: np.array(counts), lambda: list(counts), lambda: tuple(counts), lambda: pd.Series(list(counts), index=[f"clone{i}" for i in range(k)], dtype="int64"),
+               lambda: pd.Series(list(counts), index=list(range(k))[::-1], dtype="int64"), lambda: np.array(counts, dtype=np.int32),
+               lambda: pd.Series(list(counts), index=[3 * i + 2 for i in range(k)], dtype="int64")][form]()
+        ev["form"] = ("ndarray", "list", "tuple", "series-string-labels", "series-reversed-labels", "int32", "series-shifted-labels")[form]
+        idx, cnt = prs.subsample(arg, n)
         ev["idx"], ev["cnt"] = [int(i) for i in idx], [int(c) for c in cnt]
     except Exception as e:      # noqa: BLE001
         ev.update(raised=True, exc=f"{type(e).__name__}: {e}"[:160])
